@@ -293,17 +293,32 @@ def run_case(case):
     compare(res, base, d, "C09/second-simulate-differs", "second simulate() on the same project")
     # (e) after an arbitrary history on the same object
     h = Hist(spec, order=I.default_order(spec), model=m0)
+    # the caller's own absence list object is reused for every call of the history and for the final run
+    cal = list(spec["sim"]["absence"])
+    cal_before = list(cal)
+    if cal and case["i"] % 2 == 0:
+        h.shared_absence = cal
     herr = None
     for op in case["history"]:
         herr = h.do(op)
         if herr:
             break
+    if h.shared_absence is not None:
+        res.count("C09.shared_caller_list_histories")
+        if cal != cal_before:
+            res.violate("C09", "C09/hidden-state:caller-absence-list-mutated",
+                        "the absence list object passed to simulate() was changed by the library during history %s: %s -> %s" % (case["history"], cal_before, cal))
     if herr is None:
         I.set_order(I.default_order(spec))
         with warnings.catch_warnings():
             warnings.simplefilter("ignore")
             try:
-                m0.project.simulate(**sim_kwargs(spec))
+                if h.shared_absence is not None:
+                    kw_ = sim_kwargs(spec)
+                    kw_["absence_time_list"] = cal
+                    m0.project.simulate(**kw_)
+                else:
+                    m0.project.simulate(**sim_kwargs(spec))
                 d = B.dump(m0.project)
             except Exception as e:
                 d = dict(error=exc_info(e)["type"] + "@" + exc_info(e)["where"])
